@@ -797,7 +797,18 @@ impl Ctx {
         }
         // timing-dependent checks: a violation counts only if every confirmation run fails too
         if self.confirm_runs > 0 {
+            let mut confirmed_any = false;
             for (i, r) in results.iter_mut() {
+                if confirmed_any {
+                    // one confirmed violation decides the run: the other failing cases are not run
+                    // again (against a broken tracker each re-run can take minutes)
+                    if let Err(v) = r {
+                        if !v.kind.starts_with("inconclusive") {
+                            *r = Err(Violation::new("inconclusive-not-rerun", format!("[{}] not run again: another case of this sub-check was already confirmed", v.kind)));
+                        }
+                    }
+                    continue;
+                }
                 if let Err(first) = r {
                     // Undecided outcomes (a wait that ran out on a loaded machine) are simply
                     // run again. A violation is run again up to four times: one more failure
@@ -830,6 +841,7 @@ impl Ctx {
                             Err(_) => {}
                         }
                     }
+                    confirmed_any = confirmed.is_some();
                     *r = match (confirmed, last_ok) {
                         (Some(v), _) => Err(v),
                         (None, Some(o)) => Ok(o),
